@@ -145,8 +145,8 @@ func run(c *lib.Ctx) {
 		"the blockchain module behind the queue answers every broadcast block (accept, or reject for the denied-peer probe) and holds a block for every height <= its current height",
 		"allocation sizes that merely exhaust the machine (several hundred MB per message) are not generated in bulk; a single 2^36-count light block per batch probes the unbounded allocation",
 		"data-race reports of the race children are counted, not deciding (the property is about crashes); checkptr faults and fatal errors kill the child and decide")
-	nPlain, nRace := c.N(16, 300), c.N(8, 60)
-	perPlain, perRace := 400, 120 // scenarios per batch
+	nPlain, nRace := c.N(14, 300), c.N(6, 60)
+	perPlain, perRace := 320, 100 // scenarios per batch
 	if !c.Quick() {
 		perPlain, perRace = 1500, 500
 	}
@@ -333,14 +333,7 @@ func reportCrash(c *lib.Ctx, idx int, race bool, in batchIn, res lib.ChildResult
 		}
 	}
 	crashMu.Unlock()
-	if minimal != "" {
-		// the scenario kind is part of the shape: "ltblock-group-tail/group-after-block" etc.
-		k := minimal
-		if i := strings.Index(k, "/"); i > 0 && strings.HasPrefix(k, "ltblock-group-tail") {
-			k = "ltblock-group-tail"
-		}
-		shape += "@" + k
-	}
+	_ = minimal
 	c.Violation(idx, shape, witness, "batch %d (%s): node process died (exit %d) after %d scenarios: %s; dying goroutine: %s; last logged input: %s; minimal reproducer: %v",
 		idx, map[bool]string{false: "plain", true: "race/checkptr"}[race], res.ExitCode, len(scen), reason, strings.Join(stack, " <- "), strings.Join(tail(in.LogPath, 1), ""), witness["minimal_kind"])
 }
